@@ -641,6 +641,21 @@ func (x *executor) allModifies() []*clause {
 }
 
 func (x *executor) modTargetOf(ev *evaluator, e Expr) modTarget {
+	// pointee(v): the object an interface value v points to (its dynamic type must be a pointer known at the call)
+	if call, ok := e.(*ECall); ok {
+		if id, ok := call.Fun.(*EIdent); ok && id.Name == "pointee" && len(call.Args) == 1 {
+			v := ev.eval(call.Args[0])
+			u := ev.term(v).un()
+			for k, ct := range x.c.ifaceCtors {
+				if u.op == ct.name && len(u.args) == 1 {
+					if pt, ok := x.c.ifaceTypes[k].Underlying().(*types.Pointer); ok {
+						return modTarget{heap: true, typ: pt.Elem(), sort: heapKey(pt.Elem()), ref: u.args[0]}
+					}
+				}
+			}
+			ev.fail("pointee(%s): the dynamic type of the interface is not a pointer known at this call", exprString(call.Args[0]))
+		}
+	}
 	// state(e): the abstract (model-function) state attached to the type of e, not its memory
 	if call, ok := e.(*ECall); ok {
 		if id, ok := call.Fun.(*EIdent); ok && id.Name == "state" && len(call.Args) == 1 {
